@@ -111,8 +111,10 @@ def parseOAttrs : List TAttr → Bytes → Option (List (Option DAttr) × Bytes)
         match parseCRU dn t r0 with
         | none => none
         | some ((cnt, rc, u), r1) =>
-          -- a value that is announced must be there, `count` times; one that is not announced is absent
-          match (if dn % 2 = 1 then valsSplit rc cnt r1 else some ([], r1)) with
+          -- a value that is announced must be there, `count` times; a component without value is only acceptable
+          -- with a count of 0 (an empty list): a value that is not there is an *absent attribute*, not a component
+          -- announcing `count` values and carrying none
+          match (if dn % 2 = 1 then valsSplit rc cnt r1 else (if cnt = 0 then some ([], r1) else none)) with
           | none => none
           | some (vs, r2) =>
             (parseOAttrs ts r2).map fun (as, r) => (some { count := cnt, rc := rc, units := u, vals := vs } :: as, r)
